@@ -37,6 +37,11 @@ def one(sid):
                 if m and (ROOT / m.group(1)).exists():
                     r = json.loads((ROOT / m.group(1)).read_text())
                     key = {"key": r.get("key"), "failing_input_found": r.get("failing_input_found"), "what": str(r.get("what"))[:200]}
+                    # the concrete failing input goes to the corpus of that check (replayed first on every run from now on)
+                    if r.get("failing_input_found") and isinstance(r.get("case"), dict) and r.get("stage") and os.environ.get("SEED_CORPUS"):
+                        cd = ROOT / "harness" / "corpus" / c
+                        cd.mkdir(parents=True, exist_ok=True)
+                        (cd / f"{sid}.json").write_text(json.dumps({"stage": r["stage"], "from_seed": sid, "key": r.get("key"), "case": r["case"]}, indent=1, default=str))
             res[c] = {"rc": rc, "violations": len(v), "first": key}
     finally:
         sh(f"git -C /repo worktree remove --force {wt}")
